@@ -53,12 +53,11 @@ Proof.
 Qed.
 
 Lemma depth_same (v : N) (d : Z) : (v <= 96)%N ->
-  (if (v =? OP_IF)%N || (v =? OP_NOTIF)%N || (v =? OP_VERIF)%N || (v =? OP_VERNOTIF)%N
+  (if (v =? OP_IF)%N || (v =? OP_NOTIF)%N
    then d + 1 else if (v =? OP_ENDIF)%N then d - 1 else d) = d.
 Proof.
-  intros H. unfold OP_IF, OP_NOTIF, OP_VERIF, OP_VERNOTIF, OP_ENDIF.
+  intros H. unfold OP_IF, OP_NOTIF, OP_ENDIF.
   replace (v =? 99)%N with false by lia. replace (v =? 100)%N with false by lia.
-  replace (v =? 101)%N with false by lia. replace (v =? 102)%N with false by lia.
   replace (v =? 104)%N with false by lia. reflexivity.
 Qed.
 
@@ -236,7 +235,7 @@ Lemma parse_one f b r dth :
   op_length (b2n b) = 1 -> (b2n b =? OP_RETURN)%N = false ->
   parse_ops (S f) false (b :: r) dth =
   option_map (cons (op1 (b2n b)))
-    (parse_ops f false r (if (b2n b =? OP_IF)%N || (b2n b =? OP_NOTIF)%N || (b2n b =? OP_VERIF)%N || (b2n b =? OP_VERNOTIF)%N
+    (parse_ops f false r (if (b2n b =? OP_IF)%N || (b2n b =? OP_NOTIF)%N
                           then dth + 1 else if (b2n b =? OP_ENDIF)%N then dth - 1 else dth)).
 Proof. intros Hl Hr. cbn [parse_ops andb]. rewrite Hr, Hl. reflexivity. Qed.
 
